@@ -524,3 +524,43 @@ func sortStrings(l []string) {
 		}
 	}
 }
+
+// g19AtomicPrint — (*pkg).Print creates derived.gen.go with os.Create and then writes it in several steps. An interruption
+// in between leaves a prefix of the new output on disk. The loader tolerates a derived file that is cut inside a
+// declaration (AllowErrors), but not one cut before its package clause is complete: go/build then cannot determine the
+// directory's package and every later run ends with "no initial packages were loaded" until the file is deleted by hand.
+// Necessary condition for the interrupted-write clause of C07: the new content replaces the old file atomically (it is
+// written to another name and renamed), so that no prefix ever exists under the name derived.gen.go.
+func g19AtomicPrint(r *Repo, rep *Report) {
+	fi := r.lookup("derive.(*pkg).Print")
+	if fi == nil {
+		rep.fail(Finding{Rule: "G19", Key: "G19|print|missing", Kind: "undecided", Msg: "(*pkg).Print not found"})
+		return
+	}
+	info := fi.Pkg.TypesInfo
+	creates, renames := false, false
+	ast.Inspect(fi.Decl.Body, func(m ast.Node) bool {
+		c, ok := m.(*ast.CallExpr)
+		if !ok {
+			return true
+		}
+		if fn, ok := callee(info, c).(*types.Func); ok && fn.Pkg() != nil && fn.Pkg().Path() == "os" {
+			switch fn.Name() {
+			case "Create", "OpenFile", "WriteFile":
+				creates = true
+			case "Rename":
+				renames = true
+			}
+		}
+		return true
+	})
+	switch {
+	case !creates:
+		rep.fail(Finding{Rule: "G19", Key: "G19|print|shape", Kind: "undecided", Where: []string{r.pos(fi.Decl.Pos())}, Msg: "(*pkg).Print does not create the derived file with os.Create/OpenFile/WriteFile: the rule needs re-confirmation"})
+	case renames:
+		rep.pass("G19")
+	default:
+		rep.fail(Finding{Rule: "G19", Key: "G19|print|non-atomic", Where: []string{r.pos(fi.Decl.Pos())},
+			Msg: "(*pkg).Print truncates derived.gen.go and writes it in steps, without writing to another name and renaming: an interrupted run leaves a prefix of the output under the real name, and a prefix that ends before the package clause is complete makes every later run fail"})
+	}
+}
